@@ -524,7 +524,7 @@ fn render_prog(rng: &mut Rng, prog: &Prog, wild: bool) -> Program {
     Program::Asm { src: r.src, ast: prog.ast.clone(), texts: r.texts }
 }
 
-fn words_of(prog: &Prog) -> i64 {
+pub fn words_of(prog: &Prog) -> i64 {
     prog.ast.iter().map(|it| match it.k { "orig" | "break" | "end" => 0, "blkw" => it.c, "stringz" => it.s.len() as i64 + 1, _ => 1 }).sum()
 }
 fn orig_of(prog: &Prog) -> i64 {
